@@ -39,8 +39,8 @@ inductive Led where
 /-- what `nud` of a symbol does -/
 inductive Nud where
   | none
-  /-- `self[:] = self.parser.expression(rbp),` -/
-  | prefix (rbp : Nat)
+  /-- `[next token must start with a code in rhs unless rhs = []]; self[:] = self.parser.expression(rbp),` -/
+  | prefix (rbp : Nat) (rhs : List Nat)
   /-- `self[:] = expression(0), (or nothing if emptyOk and the closer follows); advance(close)` -/
   | group (close : Nat) (emptyOk : Bool)
   | other
@@ -89,10 +89,12 @@ def expr (T : Tbl) : Nat → Nat → List Tok → Except Err (Tree × List Tok)
   | f + 1, rbp, .atom k n :: rest => loop T f rbp (.atom k n) rest
   | f + 1, rbp, .op o :: rest =>
     match T.nud o with
-    | .prefix r =>
-      match expr T f r rest with
-      | .ok (x, rest') => loop T f rbp (.pre o x) rest'
-      | .error e => .error e
+    | .prefix r rhs =>
+      if !rhsOk rhs rest then .error .syntax
+      else
+        match expr T f r rest with
+        | .ok (x, rest') => loop T f rbp (.pre o x) rest'
+        | .error e => .error e
     | .group c eo =>
       match rest with
       | .close c' :: rest' =>
